@@ -214,6 +214,9 @@ pub fn realise(c: &Case, table: &[(u8, u8)], canonical: bool) -> ModelSpec {
         section_gap: if canonical { 0 } else { c.section_gap },
         has_flags: c.has_flags,
         skew_unused_copies: 0,
+        // every seventh model read (never one the writer has to reproduce) carries terrain shadow tables
+        ts_meshes: if !canonical && c.seed % 7 == 0 { 1 + ((c.seed >> 8) % 3) as u8 } else { 0 },
+        ts_submeshes: if !canonical && c.seed % 7 == 0 { ((c.seed >> 12) % 4) as u16 } else { 0 },
     }
 }
 
@@ -356,6 +359,9 @@ fn prop(c: &Case, ctx: &Ctx) -> PResult {
     };
     compare_model(&mdl, &built.expected, &spec, Some(ctx))?;
     ctx.class(if c.v6 { "version:6" } else { "version:5" });
+    if c.seed % 7 == 0 {
+        ctx.class("terrain-shadow-tables");
+    }
     ctx.classf(format!("lods:{}", c.lods.len()));
     let nontrivial = spec.lods.iter().flatten().any(|m| (m.stream_count >= 2 || m.elements.len() >= 4) && m.vertex_count >= 1);
     if nontrivial {
@@ -479,6 +485,8 @@ pub fn sweep_spec(variant: u8, v6: bool, canonical: bool) -> ModelSpec {
         section_gap: 0,
         has_flags: (false, false),
         skew_unused_copies: 0,
+        ts_meshes: 0,
+        ts_submeshes: 0,
     }
 }
 
